@@ -1,7 +1,7 @@
 """C20 — hostile or garbled input cannot crash or wedge the proxy (structural clauses)."""
 from engine.anl.casts import const_value
 from engine.anl.origin import fmt, subterms, strip_bb
-from .common import S, co, calls_norm, is_call_term, var_name, render_path, effectful_calls, spawned_children
+from .common import atomic_method, S, co, calls_norm, is_call_term, var_name, render_path, effectful_calls, spawned_children
 from . import C02, C03, C04, C16, C17
 
 EXPLANATION = (
@@ -457,6 +457,33 @@ def r13_slice_indices(ctx, reach):
     ctx.floor("R20.13", "slice index sites on input-reachable code", n, 25)
 
 
+def r14_gauges_released_on_every_exit(ctx):
+    """a counter of things in progress (an atomic that the crate both increments and decrements, or a semaphore permit that is
+    forgotten) is decremented on *every* way out of the function that decrements it — an early `?` exit that skips the
+    decrement leaks one slot per failed attempt, and whoever can cause failures can fill the counter up and lock everybody out"""
+    n = 0
+    for key, body in ctx.P.scan():
+        if key.startswith(("anytls_",)):
+            continue
+        subs = [c for c in body.calls() if atomic_method(c) == "fetch_sub"]
+        if not subs:
+            continue
+        if "Drop>::drop" in key or key.endswith("::drop"):
+            continue        # a guard object: runs on every exit by construction
+        cfg = ctx.cfg(body)
+        for c in subs:
+            if cfg.in_cycle(c.bb):
+                continue
+            n += 1
+            rets = body.return_blocks()
+            ok, p = cfg.must_pass([0], rets, via_blocks=[x.bb for x in subs])
+            ctx.ob("R20.14", "%s|in-progress-counter-released-on-every-exit#%d" % (ctx.P.owner(key), n), ok, c.site,
+                   "every path through the function passes the decrement" if ok else
+                   "the decrement of an in-progress counter is skipped by an early exit (a `?` before it): every failed attempt — a bad TLS handshake, a wrong preamble, which any stranger can produce — leaks one slot, and "
+                   "once the limit is reached every new connection is refused, including those of legitimate peers", path=None if ok else render_path(body, p))
+    ctx.ob("R20.14", "crate:in-progress-counters", True, "", "%d decrement sites of in-progress counters examined" % n, nontrivial=False)
+
+
 def r8_inventory(ctx, reach):
     total = 0
     kinds = {}
@@ -493,4 +520,5 @@ def run(ctx):
     r11_counted_loops(ctx, reach)
     r12_subtractions(ctx, reach)
     r13_slice_indices(ctx, reach)
+    r14_gauges_released_on_every_exit(ctx)
     r8_inventory(ctx, reach)
